@@ -24,6 +24,14 @@ def handleCodec : Handler := fun args =>
     match Pinned.schema.get? ty, Val.parse (" ".intercalate rest) with
     | some c, some v => s!"ok x{hexOf (Layout.layout Pinned.schema c v)}"
     | _, _ => "bad-op"
+  | "dec-layout" :: ty :: rest =>
+    -- decode (with the regenerated table's decoder) the bytes the PINNED layout prescribes for the value
+    match Pinned.schema.get? ty, Gen.schema.get? ty, Val.parse (" ".intercalate rest) with
+    | some cp, some c, some v =>
+      match decode Gen.schema c (Layout.layout Pinned.schema cp v) with
+      | some v' => s!"ok {v'.print}"
+      | none => "err"
+    | _, _, _ => "bad-op"
   | ["same", a, b] => if a == b then "yes" else "no"
   | "rt" :: ty :: rest =>
     match Gen.schema.get? ty, Val.parse (" ".intercalate rest) with
